@@ -13,7 +13,8 @@
     Proofs in Proofs/AbsEquiv.v, StringExact.v, StringSingle.v. *)
 From PM Require Import Model.Prelude Model.Domain Model.Automaton
   Model.Traversal Model.Matchers Model.DomString
-  Cert.LabCheck Cert.WinCheck Proofs.AbsEquiv Proofs.StringExact Proofs.StringSingle.
+  Cert.LabCheck Cert.WinCheck Proofs.AbsEquiv Proofs.StringExact Proofs.StringSingle
+  Model.DomPGKeys Model.DomPG Cert.PGCert Proofs.PGComplete.
 
 Theorem c03_accepts_iff_constraints :
   forall (K V M H P : Type) (D : DomOps K V M H P), DomEq D ->
@@ -70,6 +71,16 @@ Proof.
   rewrite (s_naive_exact pats h f2 ms2 i p a Nv Hp Hne). tauto.
 Qed.
 
+(** port graphs: the same equivalence under the valuation of a host and a binding map *)
+Theorem c03_portgraph_accepts_iff_constraints :
+  forall (A : automaton pgkey pgpred) (L : labelling) cs present i cp (h : pghost) (m : pgmap),
+    lab_ok pg_dom (fun _ => true) pg_atoms A L cs = true ->
+    cert_complete pg_entails pg_refutes A cs present = true ->
+    nth_error cs i = Some cp -> nth_error present i = Some true ->
+    (aaccepts (pgval h m) A (N.of_nat i) <-> forall c, In c cp -> pgval h m c = true).
+Proof. exact pg_accepts_iff. Qed.
+
 Print Assumptions c03_accepts_iff_constraints.
+Print Assumptions c03_portgraph_accepts_iff_constraints.
 Print Assumptions c03_string_many_equals_naive.
 Print Assumptions c04_c06_certified_automata_agree.
